@@ -155,7 +155,11 @@ func mkQuery(id uint16, name string, edns bool) []byte {
 			o := m.IsEdns0()
 			o.Option = append(o.Option, &dns.EDNS0_COOKIE{Code: dns.EDNS0COOKIE, Cookie: clientCookie(id)})
 		}
-		if id%5 == 0 {
+		if id%7 == 3 && id%3 != 1 {
+			// a COOKIE shorter than a client cookie, as the LAST option: nothing behind it in the packet
+			o := m.IsEdns0()
+			o.Option = append(o.Option, &dns.EDNS0_COOKIE{Code: dns.EDNS0COOKIE, Cookie: "c00c1e0a0b0c0d"[:2*(1+int(id)%7)]})
+		} else if id%5 == 0 {
 			// an EDNS option the wire-born parser does not admit: the packet takes the
 			// decoded entry (pooled chain from Pipeline.chainPool, pooled edns writer)
 			o := m.IsEdns0()
@@ -336,7 +340,9 @@ func whyNotOwn(sent, got []byte) string {
 	switch qc, rc := cookieOf(q), cookieOf(r); {
 	case qc == "" && rc != "":
 		return "the reply carries a COOKIE option (" + rc[:min(len(rc), 16)] + "…) although this query sent none: bytes of another client's query"
-	case qc != "" && rc != "" && !strings.HasPrefix(rc, qc[:16]):
+	case qc != "" && len(qc) < 16 && rc != "":
+		return "the query's COOKIE was shorter than a client cookie (" + qc + "); the reply carries " + rc[:min(len(rc), 16)] + "…: bytes this query did not send"
+	case len(qc) >= 16 && rc != "" && !strings.HasPrefix(rc, qc[:16]):
 		return "the reply's COOKIE option echoes a client cookie this query did not send"
 	}
 	switch behOf(name) {
@@ -563,6 +569,11 @@ func execCookie(mode, pattern string) vlib.Res {
 			if c == 'c' {
 				o := m.IsEdns0()
 				o.Option = append(o.Option, &dns.EDNS0_COOKIE{Code: dns.EDNS0COOKIE, Cookie: fmt.Sprintf("%016x", 0xc00c1e0000000000+uint64(i+1))})
+			}
+			if c == 's' {
+				// 1..7 cookie bytes, the last thing in the datagram: an 8-byte read runs into whatever the slab held
+				o := m.IsEdns0()
+				o.Option = append(o.Option, &dns.EDNS0_COOKIE{Code: dns.EDNS0COOKIE, Cookie: "5a5b5c5d5e5f50"[:2*(1+i%7)]})
 			}
 		}
 		b, _ := m.Pack()
